@@ -184,6 +184,66 @@ def run(chk):
                                    "expect": want.decode("utf-8", "replace")}, True, "delete on a derived container removed the wrong element")
     for op, (expr, d, got, want) in sorted(stale.items()):
         chk.known_finding("stale-key-" + op, "%s on %s -> %s, expected %s" % (expr, json.dumps(d), got.decode("utf-8", "replace").strip(), want.decode("utf-8", "replace").strip()))
+    # ---- deleting from a COPY leaves the original alone: `(copy-of-container | del(s)) as $x | .` prints the document
+    copies = []
+    for _ in range(1500 if thorough else 250):
+        d = evalgen.gen_doc(chk.rng)
+        conts = [p_ for p_ in evalgen.doc_paths(d) if isinstance(evalgen._get(d, p_), (list, dict)) and len(evalgen._get(d, p_)) >= 2]
+        if not conts:
+            continue
+        cp = chk.rng.choice(conts)
+        P = path_expr(cp) if cp else ("self",)
+        f = chk.rng.choice([("pipe", P, ("map", ("self",))), ("collect", ("pipe", P, ("index", ("self",), None))), ("pipe", P, ("reverse",)) if isinstance(evalgen._get(d, cp), list) else ("pipe", P, ("map", ("self",))),
+                            ("pipe", P, ("to_entries",)), ("pipe", P, ("filter", ("ne", ("self",), lit(12345))))])
+        sel = chk.rng.choice([("index", ("self",), lit(0)), ("index", ("self",), lit(-1)), ("union", ("index", ("self",), lit(0)), ("index", ("self",), lit(1)))])
+        copies.append((("as", ("pipe", f, ("del", sel)), "x", ("self",)), d))
+        copies.append((("pipe", ("assign", ("getkey", "zz"), ("pipe", f, ("del", sel))), ("del", ("getkey", "zz"))), d))
+    cout = evalcheck.impl_eval(copies)
+    for (e, d), got in zip(copies, cout):
+        if not got.startswith(b"OK\n"):
+            chk.count(("copy", evalgen.render(e), json.dumps(d)), nontrivial=False)
+            continue
+        chk.count(("copy", evalgen.render(e), json.dumps(d)), nontrivial=True)
+        want = b"OK\n" + evalcheck.ser(d) + b"\n"
+        if got != want and len(chk.violations) < 8:
+            chk.violation({"kind": "eval", "expr": evalgen.render(e), "doc": d, "impl": got.decode("utf-8", "replace"), "expect": want.decode("utf-8", "replace")}, True,
+                          "deleting from a copy of a container changed the container it was copied from: " + evalgen.render(e))
+    # ---- YAML documents with anchors and aliases: after explode, a delete below an expanded alias removes that node only
+    #      (not the anchored original, not a sibling expansion): compared with the delete on the exploded value decoded afresh
+    import c16
+    yc = []
+    for _ in range(300 if thorough else 40):
+        yc.append(c16.gen_alias_yaml(chk.rng))
+    ex = vlib.yqh_parallel([{"op": "eval", "expr": "explode(.)", "input": y, "in": "yaml", "out": "json", "indent": 0} for y in yc])
+    yreq, ymeta = [], []
+    for y, r in zip(yc, ex):
+        if not r or r.get("err") or "out_b64" not in r:
+            continue
+        try:
+            after = json.loads(vlib.b64d(r["out_b64"]))
+        except Exception:
+            continue
+        ps = [p_ for p_ in evalgen.doc_paths(after) if p_]
+        for p_ in chk.rng.sample(ps, min(4, len(ps))):
+            sel = evalgen.render(path_expr(p_))
+            yreq.append({"op": "eval", "expr": "explode(.) | del(%s)" % sel, "input": y, "in": "yaml", "out": "json", "indent": 0})
+            yreq.append({"op": "eval", "expr": "del(%s)" % sel, "input": json.dumps(after), "in": "json", "out": "json", "indent": 0})
+            ymeta.append((y, sel))
+    yresp = vlib.yqh_parallel(yreq)
+    for k, (y, sel) in enumerate(ymeta):
+        a, b = yresp[2 * k], yresp[2 * k + 1]
+        if not a or not b or a.get("err") or b.get("err") or "out_b64" not in a or "out_b64" not in b:
+            continue
+        try:
+            ga, gb = json.loads(vlib.b64d(a["out_b64"])), json.loads(vlib.b64d(b["out_b64"]))
+        except Exception:
+            continue
+        chk.count(("yamldel", sel, y), nontrivial=True)
+        if ga != gb and len(chk.violations) < 8:
+            chk.violation({"kind": "yamldel", "expr": "explode(.) | del(%s)" % sel, "yaml": y, "impl": json.dumps(ga), "expect": json.dumps(gb)}, True,
+                          "after explode, del(%s) did not remove exactly that node" % sel)
+    chk.extra["copy_frame_cases"] = len(copies)
+    chk.extra["yaml_alias_delete_cases"] = len(ymeta)
     chk.extra["distribution"] = {"fresh": len(fresh), "derived": len(derived), "impl_outcomes": evalcheck.outcome_stats(impl), "outside_model_fragment(UNSUP)": unsup,
                                  "stale_key_classes_seen": sorted(stale)}
     if mm and not chk.violations:
@@ -219,5 +279,14 @@ def split_items(lst_bytes):
     return out
 
 
+def replay_yamldel(rp):
+    r = vlib.yqh_batch([{"op": "eval", "expr": rp["expr"], "input": rp["yaml"], "in": "yaml", "out": "json", "indent": 0}])[0]
+    if not r or r.get("err") or "out_b64" not in r:
+        return True
+    return json.loads(vlib.b64d(r["out_b64"])) == json.loads(rp["expect"])
+
+
 def replay(rp):
+    if rp.get("kind") == "yamldel":
+        return replay_yamldel(rp)
     return evalcheck.replay_eval(rp)
